@@ -450,7 +450,8 @@ func (o *fillOpt) fill(v reflect.Value, depth int) {
 		for i := range b {
 			b[i] = byte(o.rnd.Intn(256))
 		}
-		if bl%8 != 0 && len(b) > 0 {
+		// (in BER the unused bits of the final octet may have any value, X.690 8.6.2.4: every second value leaves them as drawn)
+		if bl%8 != 0 && len(b) > 0 && o.rnd.Intn(2) == 0 {
 			b[len(b)-1] &= byte(0xff << uint(8-bl%8))
 		}
 		v.Set(reflect.ValueOf(asn.BitString{Bytes: b, BitLength: uint64(bl)}))
@@ -1305,8 +1306,10 @@ func RunBer(in, out string) error {
 				for i := range b {
 					b[i] = byte(rnd.Intn(256))
 				}
-				if bl%8 != 0 {
+				if bl%8 != 0 && rnd.Intn(2) == 0 { // (the unused bits may have any value in BER)
 					b[len(b)-1] &= byte(0xff << uint(8-bl%8))
+				} else if bl%8 != 0 {
+					b[len(b)-1] |= 1
 				}
 				ptr.Elem().Set(reflect.ValueOf(asn.BitString{Bytes: b, BitLength: uint64(bl)}))
 			}
